@@ -5,6 +5,7 @@ import (
 	"sort"
 
 	ipfslog "berty.tech/go-ipfs-log"
+	"berty.tech/go-ipfs-log/accesscontroller"
 	"berty.tech/go-ipfs-log/entry"
 	"berty.tech/go-ipfs-log/iface"
 	"berty.tech/go-ipfs-log/io/cbor"
@@ -75,6 +76,47 @@ func closedAt(st *store.Store, n int) (cid.Cid, cid.Cid, bool) {
 	return cid.Undef, cid.Undef, true
 }
 
+// expectedDenialNoPre: the operation failed and the destination's policy had to refuse it (an append of a
+// refused payload, or a merge whose source holds a refused entry the destination lacks).
+func expectedDenialNoPre(w *seqx.World, op seqx.Op, st *seqx.Step) bool {
+	if st.Err == nil || st.Panic != "" {
+		return false
+	}
+	pol := policyOf(w.Cfg.Name, op.A)
+	if pol.payload == "" && pol.writerID == "" {
+		return false
+	}
+	switch op.K {
+	case "appfixed":
+		return pol.payload == "dup"
+	case "join":
+		for u := range w.ML[op.B].Set {
+			if !w.ML[op.A].Set[u] && pol.denies(w, u) {
+				return true
+			}
+		}
+	}
+	return false
+}
+
+// closedNow checks the store as it stands: every block present has all its links present (a store is not
+// grow-only by nature: blocks can be removed).
+func closedNow(st *store.Store) (cid.Cid, cid.Cid, bool) {
+	have := map[string]bool{}
+	for _, c := range st.Present() {
+		have[c.KeyString()] = true
+	}
+	for _, c := range st.Present() {
+		links, _ := blockLinks(st, c)
+		for _, l := range links {
+			if !have[l.KeyString()] {
+				return c, l, false
+			}
+		}
+	}
+	return cid.Undef, cid.Undef, true
+}
+
 func uidsOfLog(w *seqx.World, l *ipfslog.IPFSLog) ([]int, []int) {
 	var es, hs []int
 	for _, e := range l.GetEntries().Slice() {
@@ -101,10 +143,48 @@ func c17Transition(p *run.Part) func(w *seqx.World, pre *seqx.Pre, op seqx.Op, s
 		if op.K == "pub" && st.Err != nil && st.Panic == "" && len(w.ML[op.A].Set) == 0 {
 			return // an empty log has no manifest; refusing to publish it is correct
 		}
-		if stepFailure(p, "bfs", op, st, c) {
+		refused := expectedDenialNoPre(w, op, st)
+		if !refused && stepFailure(p, "bfs", op, st, c) {
 			return
 		}
 		path := seqx.PathString(c.Path)
+		// the store as it stands now must be closed, whatever the operation did (also when it was refused)
+		if blk, missing, ok := closedNow(w.St); !ok {
+			_, kind := blockLinks(w.St, blk)
+			p.Violate("bfs", "C17:store-not-closed-now:"+kind, fmt.Sprintf("after %s: the %s block %s is stored but its link %s is not (any more)", path, kind, blk, missing), c)
+			return
+		}
+		// everything ever returned must still load, from the store as it is now, to what it was when returned
+		for uid := range w.Returned {
+			l, err := ipfslog.NewFromEntryHash(world.Ctx, w.St, world.IDs[0], w.Ent[uid].GetHash(), &ipfslog.LogOptions{ID: "X"}, &ipfslog.FetchOptions{})
+			if err != nil {
+				p.Violate("bfs", "C17:returned-entry-no-longer-loadable", fmt.Sprintf("after %s: an entry hash returned earlier does not load any more: %v", path, err), c)
+				return
+			}
+			all := map[int]bool{}
+			for u := range w.M.Entries {
+				all[u] = true
+			}
+			es, _ := uidsOfLog(w, l)
+			if want := keys(w.M.Past(all, []int{uid})); fmt.Sprint(es) != fmt.Sprint(want) {
+				p.Violate("bfs", "C17:returned-entry-no-longer-loadable", fmt.Sprintf("after %s: an entry hash returned earlier now loads to %v, it stood for %v", path, es, want), c)
+				return
+			}
+		}
+		for _, pb := range w.Pubs {
+			l, err := ipfslog.NewFromMultihash(world.Ctx, w.St, world.IDs[0], pb.Cid, &ipfslog.LogOptions{}, &ipfslog.FetchOptions{})
+			if err != nil {
+				p.Violate("bfs", "C17:manifest-no-longer-loadable", fmt.Sprintf("after %s: a manifest returned earlier does not load any more: %v", path, err), c)
+				return
+			}
+			if es, _ := uidsOfLog(w, l); fmt.Sprint(es) != fmt.Sprint(pb.Set) {
+				p.Violate("bfs", "C17:manifest-no-longer-loadable", fmt.Sprintf("after %s: a manifest returned earlier now loads to %v, it stood for %v", path, es, pb.Set), c)
+				return
+			}
+		}
+		if refused {
+			return
+		}
 		// (1) closure of every prefix that this operation created. The prefixes of the parent
 		// state were checked when the parent was expanded.
 		nAdds := len(w.St.Adds)
@@ -122,7 +202,10 @@ func c17Transition(p *run.Part) func(w *seqx.World, pre *seqx.Pre, op seqx.Op, s
 		}
 		// (2) what was returned must load to the model state of that moment from the store of that moment
 		switch op.K {
-		case "app":
+		case "app", "appfixed":
+			if st.UID >= len(w.Returned) {
+				break
+			}
 			view := w.St.View(w.Returned[st.UID])
 			l, err := ipfslog.NewFromEntryHash(world.Ctx, view, world.IDs[0], st.Entry.GetHash(), &ipfslog.LogOptions{ID: "X"}, &ipfslog.FetchOptions{})
 			if err != nil {
@@ -241,16 +324,28 @@ func c17Searches(p *run.Part, tier string) []*seqx.Search {
 		depth = 7
 	}
 	dl := Budget(tier)
-	alpha := []seqx.Op{{K: "app", A: 0}, {K: "app", A: 1}, {K: "join", A: 0, B: 1}, {K: "join", A: 1, B: 0}, {K: "pub", A: 0}, {K: "pub", A: 1}}
+	alpha := []seqx.Op{{K: "app", A: 0}, {K: "app", A: 1, Pin: true}, {K: "join", A: 0, B: 1}, {K: "join", A: 1, B: 0}, {K: "pub", A: 0}, {K: "pub", A: 1}}
 	nontriv := func(w *seqx.World) bool { return len(w.Pubs) > 0 && len(w.St.Adds) >= 3 }
 	mk := func(cfg *seqx.Config, prefix string, d int) *seqx.Search {
 		return &seqx.Search{Part: p, Check: "bfs", Cfg: cfg, Alphabet: alpha, Depth: d, Prefix: Prefixes[prefix], PrefixID: prefix,
 			Deadline: dl, OnTransition: c17Transition(p), Nontrivial: nontriv}
 	}
-	return []*seqx.Search{mk(CfgDef2, "", depth), mk(CfgDef3, "+fork12", 2)}
+	// two replicas of ONE identity, replica 0 refusing the payload "dup": an entry replica 1 stored can be re-created
+	// byte-identically (same content identifier) by replica 0 and refused there
+	dup := mk(cfgDup, "", depth)
+	dup.Alphabet = []seqx.Op{{K: "appfixed", A: 0}, {K: "appfixed", A: 1}, {K: "app", A: 0}, {K: "app", A: 1}, {K: "join", A: 0, B: 1}, {K: "join", A: 1, B: 0}, {K: "pub", A: 1}}
+	return []*seqx.Search{mk(CfgDef2, "", depth), mk(CfgDef3, "+fork12", 2), dup}
 }
 
+var cfgDup = &seqx.Config{Name: "same-identity-deny-dup", Writers: []int{0, 0}, PC: 4, AC: func(r int) accesscontroller.Interface {
+	if r == 0 {
+		return &denyPolicy{payload: "dup"}
+	}
+	return &denyPolicy{}
+}}
+
 func init() {
+	Configs[cfgDup.Name] = cfgDup
 	register(&Check{ID: "C17", Run: func(p *run.Part, tier string) {
 		p.Rule = "states are canonical keys of two replicas plus the number of publications; every block write of every transition is a crash point; non-trivial = states with at least one published manifest and >= 3 blocks"
 		p.Assume("two replicas on one store, depth as in extra.searches; the store double applies writes atomically and in call order (torn block writes are below the abstraction of Dag().Add); default codec")
